@@ -178,3 +178,49 @@ pub fn machinery_error(msg: &str) -> ! {
     eprintln!("MACHINERY-ERROR: {msg}");
     std::process::exit(2);
 }
+
+/// Second engine of a property: merges its coverage into the evidence file the first engine
+/// wrote (under `coverage.<part>`), reports its findings, exits 0 / 1.
+pub fn conclude_merge(cli: &Cli, part: &str, coverage: Value, findings: Vec<Finding>) -> ! {
+    let path = cli.root.join("evidence").join(format!("{}.json", cli.property));
+    if let Ok(txt) = std::fs::read_to_string(&path) {
+        if let Ok(mut v) = serde_json::from_str::<Value>(&txt) {
+            v["coverage"][part] = coverage;
+            let _ = std::fs::write(&path, serde_json::to_string_pretty(&v).unwrap());
+        }
+    }
+    let known = Known::load(&cli.root);
+    let mut bad = 0;
+    let mut seen = std::collections::BTreeSet::new();
+    for (n, f) in findings.iter().enumerate() {
+        if !seen.insert(f.key.clone()) {
+            continue;
+        }
+        if known.is_known(&cli.property, &f.key) {
+            println!("KNOWN-FINDING: property={} {} [{}]", cli.property, f.key, f.oracle);
+            continue;
+        }
+        bad += 1;
+        if bad <= 5 {
+            let dir = cli.root.join("replays");
+            let _ = std::fs::create_dir_all(&dir);
+            let path = dir.join(format!("{}-{}-{}-{}.json", cli.property, cli.tier, part, n));
+            let mut rep = f.replay.clone();
+            rep["property"] = json!(cli.property);
+            rep["oracle"] = json!(f.oracle);
+            rep["key"] = json!(f.key);
+            let _ = std::fs::write(&path, serde_json::to_string_pretty(&rep).unwrap());
+            println!("# {}: {}", f.key, f.oracle);
+            println!("VIOLATION property={} replay={}", cli.property, path.display());
+        }
+    }
+    if bad > 0 {
+        if let Ok(txt) = std::fs::read_to_string(&path) {
+            if let Ok(mut v) = serde_json::from_str::<Value>(&txt) {
+                v["violations"] = json!(v["violations"].as_i64().unwrap_or(0) + bad as i64);
+                let _ = std::fs::write(&path, serde_json::to_string_pretty(&v).unwrap());
+            }
+        }
+    }
+    std::process::exit(if bad > 0 { 1 } else { 0 });
+}
